@@ -38,7 +38,17 @@ fn build_config(v: &Value) -> BuildConfig {
     }
     match v["pre"].as_str() {
         Some("touch") => {
-            c.app_dir_preprocessor(|p| std::fs::write(p.join("PREPROCESSED"), b"x").unwrap());
+            c.app_dir_preprocessor(|p| {
+                std::fs::write(p.join("PREPROCESSED"), b"x").unwrap();
+                // rewrite a file of the fixture in place and extend another one: the copy is private, the fixture stays as it was
+                if p.join("app.txt").is_file() {
+                    std::fs::write(p.join("app.txt"), b"changed").unwrap();
+                }
+                if p.join("sub/inner.txt").is_file() {
+                    use std::io::Write;
+                    std::fs::OpenOptions::new().append(true).open(p.join("sub/inner.txt")).unwrap().write_all(b"+more").unwrap();
+                }
+            });
         }
         Some("panic") => {
             c.app_dir_preprocessor(|_| panic!("injected preprocessor panic"));
@@ -189,7 +199,7 @@ pub fn run(case: &Value) -> Value {
         }
         fixture_dirs.push(p);
     }
-    std::fs::write(root.join("state").join("plan.json"), serde_json::to_string(&json!({"fail": case["fail"]})).unwrap()).unwrap();
+    std::fs::write(root.join("state").join("plan.json"), serde_json::to_string(&json!({"fail": case["fail"], "noise": case["noise"]})).unwrap()).unwrap();
     std::fs::write(root.join("case.json"), serde_json::to_string(&case).unwrap()).unwrap();
 
     let mut child = std::process::Command::new(std::env::current_exe().unwrap());
